@@ -501,6 +501,42 @@ def snprintf_clause(prop, res):
         raise AnalysisBroken("R-PRINTF: only %d writes through d->buf found in snprntffuns.c (floor 4)" % res["stats"]["buffer_writes"])
 
 
+def conversion_coverage(prop, res):
+    """Exhaustiveness: the character switch of __gmp_doprnt / __gmp_doscan has a case for every flag, width / precision character, type
+    and conversion that the manual's "Formatted Output Strings" / "Formatted Input Strings" list.  A conversion without a case falls
+    into `default`, and the standard conversion it belonged to - or the rest of the format - is mis-parsed ("standard conversions mixed
+    into the format are unaffected")."""
+    F = res["findings"]
+    need = {"__gmp_doprnt": ("printf/doprnt.c", set("aAcdeEfigGnopsuxX%") | set("#+ '0-") | set("123456789*.") | set("FNMQZhjlLqtz")),
+            "__gmp_doscan": ("scanf/doscan.c", set("cdeEfgGinopsuxX[%") | set("*0123456789") | set("FQZhjlLqtz"))}
+    ex = sa.export(sa.cfg_built())
+    for name, (suffix, req) in need.items():
+        fns = [f for p_, f in ex.functions(lambda p_: p_.endswith(suffix)) if f["name"] == name]
+        if len(fns) != 1:
+            raise AnalysisBroken("R-PRINTF: %s not found" % name)
+        fn = fns[0]
+        blocks = sa.blocks_by_id(fn)
+        best = None
+        for b in fn["blocks"]:
+            t = b.get("term")
+            if t and t.get("kind") == "SwitchStmt":
+                vals = set()
+                for s_ in b["succs"]:
+                    if isinstance(s_, int) and blocks[s_].get("case", {}).get("k") == "int":
+                        vals.add(blocks[s_]["case"]["v"])
+                if best is None or len(vals) > len(best[0]):
+                    best = (vals, t.get("line", 0))
+        if best is None or len(best[0]) < 20:
+            raise AnalysisBroken("R-PRINTF: the conversion switch of %s was not found" % name)
+        have = {chr(v) for v in best[0] if 0 < v < 128}
+        res["stats"]["conversion_cases"] += len(req)
+        for ch in sorted(req - have):
+            F.append(Finding(prop, "R-PRINTF", fn["file"], best[1], name, "conversion-without-case:%s" % ch,
+                             "the switch at line %d of %s has no case for %r, which the manual lists: the format is mis-parsed from there on"
+                             % (best[1], name, ch)))
+        res["samples"].append(dict(rule="R-PRINTF.coverage", function=name, cases="".join(sorted(have))))
+
+
 def asprintf_headroom(prop, res):
     """gmp_asprintf_t keeps one byte of headroom for the terminating NUL (the macro's own ASSERT: alloc >= size + 1).  Every expansion of
     GMP_ASPRINTF_T_NEED (d, n) decides with one comparison whether to grow; on the edge that does NOT grow, the comparison must entail
@@ -591,11 +627,12 @@ def run(prop="C18", tier="quick"):
     snprintf_clause(prop, res)
     run_reset(prop, res)
     asprintf_headroom(prop, res)
+    conversion_coverage(prop, res)
     # ---- asprintf sizes (R-ALLOC.size restricted to printf/) ----------------------------------------
     ra = r_alloc.run(prop=prop, tier=tier)
     F += [f for f in ra["findings"] if "/printf/" in f.file or "/scanf/" in f.file]
     res["stats"]["alloc_sites_printf"] = ra["stats"].get("allocator_sites", 0)
     res["stats"] = dict(res["stats"])
-    res["obligations"] = res["stats"]["table_slots"] + res["stats"]["buffer_writes"] * 2 + res["stats"].get("cursor_updates", 0) + res["stats"].get("reset_uses", 0) + res["stats"].get("asprintf_need_sites", 0)
+    res["obligations"] = res["stats"]["table_slots"] + res["stats"]["buffer_writes"] * 2 + res["stats"].get("cursor_updates", 0) + res["stats"].get("reset_uses", 0) + res["stats"].get("asprintf_need_sites", 0) + res["stats"].get("conversion_cases", 0)
     res["exhaustive"] = True
     return res
